@@ -147,3 +147,135 @@ func VH_C14_deferred(d int) {
 	vcover("deferred")
 	vobserve("log", uint64(len(log)))
 }
+
+type vhEvC struct{ n int }
+
+// C14(c'): deferred events with two awaited types, and a handler that defers again while its own
+// event is being dispatched. d events are deferred, each until B or until C (symbolic); then B
+// and C events are fired in a symbolic order. Every deferred event is delivered exactly once,
+// only after an event of its awaited type was handled, and in deferral order among those waiting
+// for the same type.
+func VH_C14_deferred2(d int) {
+	el := New(logging.VNop(), 16)
+	var log []int // -1: B handled; -2: C handled; k >= 0: A event k handled
+	first := true
+	Register(el, func(e vhEvA) { log = append(log, e.n) })
+	Register(el, func(e vhEvB) {
+		log = append(log, -1)
+		if first {
+			first = false
+			DelayUntil[vhEvB](el, vhEvA{50}) // deferred while B is being dispatched
+		}
+	})
+	Register(el, func(e vhEvC) { log = append(log, -2) })
+	untilC := make([]bool, d)
+	for k := 0; k < d; k++ {
+		untilC[k] = nondetBool("await-c")
+		if untilC[k] {
+			DelayUntil[vhEvC](el, vhEvA{k})
+		} else {
+			DelayUntil[vhEvB](el, vhEvA{k})
+		}
+	}
+	bFirst := nondetBool("b-first")
+	fire := func(c bool) {
+		if c {
+			el.AddEvent(vhEvC{0})
+		} else {
+			el.AddEvent(vhEvB{0})
+		}
+		for el.Tick(context.Background()) {
+		}
+	}
+	fire(bFirst == false)
+	// after the first awaited event: exactly the events waiting for that type were delivered
+	n1 := 0
+	for k := 0; k < d; k++ {
+		if untilC[k] == !bFirst {
+			n1++
+		}
+	}
+	extra := 0
+	if bFirst {
+		extra = 1 // the event deferred by B's own handler is released by the same B
+	}
+	vassert(len(log) == 1+n1+extra || len(log) == 1+n1, "first-awaited-type-releases-only-its-own-waiters")
+	fire(bFirst)
+	fire(false) // one more B: releases the re-deferred event at the latest, nothing twice
+	fire(true)
+	posOf := func(x int) (int, int) {
+		c, p := 0, -1
+		for i, v := range log {
+			if v == x {
+				c++
+				if p < 0 {
+					p = i
+				}
+			}
+		}
+		return c, p
+	}
+	_, pB := posOf(-1)
+	_, pC := posOf(-2)
+	lastB, lastC := -1, -1
+	for k := 0; k < d; k++ {
+		c, p := posOf(k)
+		vassert(c == 1, "deferred-event-delivered-exactly-once")
+		if c != 1 {
+			continue
+		}
+		if untilC[k] {
+			vassert(p > pC, "delivered-after-awaited-type-handled")
+			vassert(p > lastC, "deferral-order-among-same-awaited-type")
+			lastC = p
+		} else {
+			vassert(p > pB, "delivered-after-awaited-type-handled")
+			vassert(p > lastB, "deferral-order-among-same-awaited-type")
+			lastB = p
+		}
+	}
+	c50, p50 := posOf(50)
+	vassert(c50 == 1 && p50 > pB, "event-deferred-during-dispatch-delivered-once-after-awaited-type")
+	vassert(len(log) == 2+3+d-1+1 || len(log) == 5+d, "nothing-else-delivered")
+	if bFirst {
+		vcover("b-first")
+	} else {
+		vcover("c-first")
+	}
+	vobserve("log", uint64(len(log)))
+}
+
+// C14(d): the loop on top of the ring buffer. m events are added to a loop of capacity c without
+// ticking in between (a run-in-AddEvent observer sees every one), then the loop is ticked until
+// idle: the queued handler sees exactly the last min(m,c) events, in order, each once.
+func VH_C14_loop(c, m int) {
+	el := New(logging.VNop(), uint(c))
+	var seen, handled []int
+	Register(el, func(e vhEvA) { seen = append(seen, e.n) }, UnsafeRunInAddEvent())
+	Register(el, func(e vhEvA) { handled = append(handled, e.n) })
+	pre := nondetInt("pre") // events added and consumed beforehand, to move head/tail
+	vassume(pre >= 0 && pre <= c)
+	for i := 0; i < c; i++ {
+		if i < pre {
+			el.AddEvent(vhEvA{1000 + i})
+			vassert(el.Tick(context.Background()), "tick-handles-queued-event")
+		}
+	}
+	handled, seen = nil, nil
+	for i := 0; i < m; i++ {
+		el.AddEvent(vhEvA{i})
+	}
+	vassert(len(seen) == m, "addevent-observers-see-every-event")
+	for el.Tick(context.Background()) {
+	}
+	want := m
+	if want > c {
+		want = c
+		vcover("overflow")
+	}
+	vassert(len(handled) == want, "queued-handler-sees-min-m-c-events")
+	for i := range handled {
+		vassert(handled[i] == m-want+i, "only-oldest-dropped-rest-in-order")
+	}
+	vobserve("handled", uint64(len(handled)))
+}
